@@ -126,7 +126,13 @@ def keyfn(b):
 def run(tier):
     chk = Check(PROP, tier)
     ex = extract.write_extracted(chk)
-    chk.model("MC_AddChain", workers=2)
+    branchy = [(n, ex[n]["control_flow"]) for n in ("field_chain", "scalar_chain") if ex[n].get("control_flow")]
+    if branchy:
+        # the inversion routines are no longer straight-line addition chains: the extracted-program model does
+        # not apply; the recorded executions (invert on every critical element) still judge them
+        chk.notes.append("extracted-chain model skipped: control flow inside %s" % branchy)
+    else:
+        chk.model("MC_AddChain", workers=2)
     chk.extra["extracted_chain_instructions"] = dict(field=len(ex["field_chain"]["prog"]), scalar=len(ex["scalar_chain"]["prog"]))
     chk.exec_and_validate("T_EC", gen(chk, tier), keyfn, accel=True, families=("bits", "big"))
     return chk.finish(
